@@ -99,6 +99,8 @@ namespace detail
 
 		genIUType const prev = static_cast<genIUType>(1) << findMSB(value);
 		genIUType const next = prev << static_cast<genIUType>(1);
+		if(next <= prev)
+			return prev; // the next power of two is not representable in genIUType
 		return (next - value) < (value - prev) ? next : prev;
 	}
 
